@@ -351,6 +351,47 @@ class AbsInt:
             self.ex_block(st.finalbody, env, m)
         elif isinstance(st, (ast.Global, ast.Nonlocal, ast.Import, ast.ImportFrom)):
             pass
+        elif isinstance(st, ast.Delete):
+            for t in st.targets:
+                if isinstance(t, ast.Name):
+                    env.pop(t.id, None)
+                elif isinstance(t, ast.Attribute):
+                    base = self.ev(t.value, env, m)
+                    if isinstance(base, AObj):
+                        done = False
+                        if base.cls is not None:
+                            for k in self.p.mro(base.cls):
+                                dl = k.methods.get(f'{t.attr}@deleter')
+                                if dl is not None:
+                                    self.call_function(dl, [base], {}, t)
+                                    done = True
+                                    break
+                            if not done:
+                                o, da = self.p.lookup_method(base.cls, '__delattr__')
+                                if da is not None:
+                                    self.call_function(da, [base, t.attr], {}, t)
+                                    done = True
+                        if not done:
+                            if t.attr not in base.attrs:
+                                raise AbsRaise('AttributeError', t, implicit=True)
+                            del base.attrs[t.attr]
+                            log_event('store', base, t.attr, None)
+                    else:
+                        raise Unsupported(f'del on {base!r} at line {st.lineno}')
+                elif isinstance(t, ast.Subscript):
+                    base = self.ev(t.value, env, m)
+                    key = self.ev(t.slice, env, m)
+                    try:
+                        if isinstance(base, ADict):
+                            del base.d[key]
+                        elif isinstance(base, AList) and isinstance(key, int) and not base.has_var():
+                            del base.items[key]
+                        elif isinstance(base, (dict, list)):
+                            del base[key]
+                        else:
+                            raise Unsupported(f'del item of {base!r} at line {st.lineno}')
+                    except (KeyError, IndexError) as ex:
+                        raise AbsRaise(type(ex).__name__, t, implicit=True)
         elif isinstance(st, ast.Assert):
             pass
         elif isinstance(st, ast.With):
